@@ -38,6 +38,7 @@ import CtyModel.Lemmas.d19bSetPaths
 import CtyModel.Lemmas.d19bPathSet
 import CtyModel.Lemmas.d19bKeys
 import CtyModel.Lemmas.d19bBracket
+import CtyModel.Lemmas.d19bKeysSets
 import CtyModel.Props.C03
 namespace CtyModel
 namespace C19
@@ -1231,6 +1232,25 @@ example :
       [.index ⟨.tuple [.number], .seq [.n (.fin false 1 0 512)]⟩] = .ok true ∧
     PathSet.equiv [.index ⟨.list .string, .marked ["m"] (.seq [.marked ["k"] (.s "a")])⟩]
       [.index ⟨.list .string, .seq [.s "a"]⟩] = .ok true := by decide
+
+/-- **…and on paths whose keys hold SETS**: the carrier of the C03 `Equals` theorems for
+values with sets (`PathSet.keysDeepM`: every key, marks removed at every depth, is a
+well-formed wholly known value of a capsule-free type whose set nodes are well-formed
+— bucket ids the members' hashes, `Less` a strict total order on the members — with
+whole numbers and quotable strings).  `Equivalent` is an equivalence there and
+equivalent paths hash alike, by C03 `equals_equiv_with_sets`.  (The two carriers
+overlap but neither contains the other: this one admits sets and asks the numbers to
+be whole, `keysWideM` admits every number and no set.) -/
+theorem pathset_rules_lawful_with_sets :
+    PathSet.pathRules.LawfulOn (fun p => PathSet.keysDeepM p = true) :=
+  PathSet.pathRules_lawfulOn_deepM
+
+/-- a set of strings and a marked list of sets as keys: in the carrier -/
+example :
+    PathSet.keysDeepM [.index ⟨.set .string,
+      .sset [(CtyModel.ctyRules .string).hash (.s "a"), (CtyModel.ctyRules .string).hash (.s "b")] [.s "a", .s "b"]⟩,
+      .getAttr "x",
+      .index ⟨.list (.set .string), .marked ["m"] (.seq [.sset [] [], .null])⟩] = true := by decide +kernel
 
 open SetImpl SetGo SetFnsTie Generated.SetFns in
 /-- **The set algebra of `PathSet`, tied to the source through BOTH layers** (audit,
